@@ -455,6 +455,12 @@ func init() {
 		panic(targetPanic{v: Iface{T: types.Typ[types.String], V: "os.Exit"}, msg: "os.Exit called", pos: in.posStr(in.curPos)})
 	}
 	intrinsics["os.Getenv"] = func(in *Interp, _ *frame, fn *ssa.Function, a []Value) Value { return "" }
+	intrinsics["github.com/pkg/errors.callers"] = func(in *Interp, _ *frame, fn *ssa.Function, a []Value) Value {
+		return (*Value)(nil) // no stack trace is recorded under the engine
+	}
+	intrinsics["runtime.Callers"] = func(in *Interp, _ *frame, fn *ssa.Function, a []Value) Value {
+		return in.tt.Const(64, 0)
+	}
 	intrinsics["runtime.KeepAlive"] = nop
 	intrinsics["runtime.GC"] = nop
 	intrinsics["runtime.Gosched"] = nop
